@@ -467,6 +467,13 @@ fn exec_unsync<S: std::hash::BuildHasher + Clone>(c: &mut UCache<VKey, VVal, S>,
                 })
                 .collect::<Vec<_>>()
                 .join(",");
+            // the public getters must report what the cache holds internally
+            if c.entry_count() != s.entry_count || c.weighted_size() != s.weighted_size {
+                return format!(
+                    "snap getter-mismatch entry_count()={} weighted_size()={} internal ec={} ws={}",
+                    c.entry_count(), c.weighted_size(), s.entry_count, s.weighted_size
+                );
+            }
             render_unsync_snap(&s, clock.now_ns(), freqs, live)
         }
         Some("freq") if ws.len() == 2 => match num(1) {
@@ -676,6 +683,12 @@ fn exec_sync<S: std::hash::BuildHasher + Clone + Send + Sync + 'static>(c: &SCac
                 })
                 .collect::<Vec<_>>()
                 .join(",");
+            if c.entry_count() != s.entry_count || c.weighted_size() != s.weighted_size {
+                return format!(
+                    "snap getter-mismatch entry_count()={} weighted_size()={} internal ec={} ws={}",
+                    c.entry_count(), c.weighted_size(), s.entry_count, s.weighted_size
+                );
+            }
             render_sync_snap(&s, clock.now_ns(), freqs, live)
         }
         Some("freq") if ws.len() == 2 => match num(1) {
